@@ -135,7 +135,10 @@ def run(c, prog, ctx):
                            "the PSET output index reaches OutPoint::new unmasked", fn.where(t["sp"]), path)
     c.floor("R3.flag-taint", 2, "extract_tx and Input::issuance_ids")
 
-    # ---- R4 JSON normalisation
+    # ---- R4 JSON normalisation (the function is compiled only with the json-contract feature, which is on by default; in the
+    # configuration without default features there is nothing to decide, in every other one a missing anchor fails closed)
+    if ctx.get("config") == "nodefault":
+        return
     fj = prog.fn("issuance::ContractHash::from_json_contract")
     b = fj.body
     calls = {callee_name(t): t for bi, t in b.calls()}
